@@ -41,6 +41,11 @@ pub fn unhex(s: &str) -> Vec<u8> {
         .collect()
 }
 
+/// Root of the allsorts checkout under test (fixtures are read from there).
+pub fn repo_root() -> String {
+    std::env::var("VERIF_REPO").unwrap_or_else(|_| "/repo".to_string())
+}
+
 /// Repository fonts (all files under /repo/tests/fonts with a font-like extension), sorted.
 pub fn repo_fonts() -> Vec<String> {
     let mut out = Vec::new();
@@ -59,8 +64,8 @@ pub fn repo_fonts() -> Vec<String> {
             }
         }
     }
-    walk(std::path::Path::new("/repo/tests/fonts"), &mut out);
-    walk(std::path::Path::new("/repo/tests/aots"), &mut out);
+    walk(std::path::Path::new(&format!("{}/tests/fonts", repo_root())), &mut out);
+    walk(std::path::Path::new(&format!("{}/tests/aots", repo_root())), &mut out);
     out.sort();
     out
 }
